@@ -67,6 +67,12 @@ CHECKS = {
         "text": "Validate.tla states well-formedness as the statement lists it; MC_Validate injects every fault class (missing/duplicate p_id, dangling and self pointers in the four foreign-key columns, varying household-level input, contradictory joint assessment, missing required column, duplicate column, lossy dtypes) at every eligible cell of four base tables, in pairs, and combined with lossless re-encodings; TLC proves the vacuity guards (fault => not Valid, benign => Valid). Every table is built as a DataFrame and simulated; TLC accepts iff malformed tables raise and well-formed re-encodings reproduce the base results exactly with a conversion warning.",
         "note": "All single faults, seeded sample of pairs in quick (thousands in thorough); typed columns represented by alter/kind/bruttolohn_m, hh-level input by bruttokaltmiete_m_hh; any exception counts as rejection.",
     },
+    "C14": {
+        "level": "model_checking",
+        "technique": "API-level TLA+ state machine (Gettsim.tla: SetUp / in-place Reform / Compute / Vectorize); TLC-enumerated histories replayed one per fresh interpreter; TLC trace validation of exact result and held-object digests against fresh-interpreter references (Trace_History)",
+        "text": "Gettsim.tla specifies that the result of a simulation call is a function of the content of its arguments only and that no call changes what the caller holds. TLC enumerates every history of set-up, in-place reform, simulate and make_vectorizable calls up to the bound; a stratified sample is replayed on the real rule base, one fresh interpreter per history, and each distinct call is also made first in two fresh interpreters with different hash seeds. TLC validates that every call's exact result digest equals its reference, that references agree, and that data (DataFrame and dict of Series needing conversion), parameters and functions have identical content digests before and after every call.",
+        "note": "Histories up to 4 (thorough 5) calls over 2 dates, 2 populations, 2 target sets, 1 parameter group, 1 rule; sampled (24 quick / 240 thorough) of the enumerated histories; digests are exact bytes.",
+    },
 }
 
 NOT_APPLICABLE = {}
